@@ -1031,6 +1031,8 @@ def render_unit(idx, tmpl_path, root, must_fail=False, params=None):
                     if depth == 1 and x in ("{", ",") and k2 + 1 < len(strs) and strs[k2 + 1] not in ("pub", "}"):
                         res.append("pub")
                 strs = res
+            if m.group(2) == "enum" and strs and strs[0] == "enum":
+                strs = ["pub"] + strs          # R5: visibility only (a private enum named in a re-declared trait's contract)
             out.extend(emit(strs).split("\n"))
             i += 1
             continue
